@@ -80,7 +80,7 @@ func c10Overlap(t *testing.T, idx int, seed uint64) {
 			return true
 		}
 		probe := func(why string, live ...*bclient) bool {
-			for _, name := range []string{"ov/pre", "ov/a", "ov/b", "ov/none"} {
+			for _, name := range []string{"ov/pre", "ov/a", "ov/b", "ov/late", "ov/none"} {
 				uid := uids.next()
 				prober.publishB(name, 2, false, spec.MakePayload(uid, 0, 30))
 				prober.fresh()
@@ -115,6 +115,24 @@ func c10Overlap(t *testing.T, idx int, seed uint64) {
 		}
 		if !probe("both connections up", A, B) || !subscribe(B, cleanB, "ov/b", 2) || !probe("newer subscribed", A, B) {
 			return
+		}
+		if !cleanA && !cleanB && idx&8 == 0 {
+			// both connections work on the same kept state: a filter subscribed on the older connection after
+			// the newer one was set up, then unsubscribed on the newer one, is gone from the kept state (the
+			// older connection keeps receiving it while it lives)
+			if !subscribe(A, false, "ov/late", 1) {
+				return
+			}
+			ua, _ := B.unsubscribeB([]string{"ov/late"})
+			if ua == nil {
+				fail("c10:unsuback", "no UNSUBACK on the newer connection")
+				return
+			}
+			delete(kept, "ov/late")
+			out.Count("c10.overlap_cross_unsubscribes", 1)
+			if !probe("after UNSUBSCRIBE on the newer connection of a filter subscribed on the older one", A, B) {
+				return
+			}
 		}
 		end(A, endA)
 		if !probe("after the older connection ended ("+endA+")", B) {
